@@ -32,6 +32,11 @@ func H_c02() {
 			// field-path references are a different lexical class (outside the claim)
 			verifAssume(!strings.HasPrefix(a[i], "$"))
 			verifAssume(!strings.HasPrefix(b[i], "$"))
+			if verifParam("allowEmpty") != "yes" {
+				// quick tier bound: literals are non-empty (the thorough tier lets either be empty)
+				verifAssume(a[i] != "")
+				verifAssume(b[i] != "")
+			}
 			if cl == "S" {
 				verifAssume(IsEmail(a[i]) == IsEmail(b[i]))
 			}
